@@ -34,11 +34,45 @@ fn chk<C: OutputChecker<Out> + 'static>(c: C, o1: &Out, o2: &Out) -> String wher
     format!("{:?}", stamp_obj).replace(' ', ""), cons(via_obj_typed))
 }
 
+/// verdicts only (direct, through the proxy with its own stamp, through the proxy with the typed stamp), for output types
+/// other than `Result<i64,i64>`: zero-sized Ok payload, zero-sized error with a niche-carrying Ok payload, ...
+fn chkv<O: Clone + Debug + 'static, C: OutputChecker<O> + 'static>(c: C, o1: &O, o2: &O) -> String where C::Stamp: Debug {
+  let stamp = c.stamp(o1);
+  let direct = c.check(o2, &stamp).is_none();
+  let obj: Box<dyn OutputCheckerObj<O>> = Box::new(c.clone());
+  let stamp_obj = obj.stamp_obj(o1);
+  let via_obj = obj.check_obj(o2, stamp_obj.as_ref()).is_none();
+  let via_obj_typed = obj.check_obj(o2, &stamp).is_none();
+  format!("{} obj={} objtyped={}", cons(direct), cons(via_obj), cons(via_obj_typed))
+}
+fn fam2(c: u32, a: i64, b: i64) -> Option<String> {
+  let e = |n: i64| -> Result<(), i64> { if n >= 0 { Ok(()) } else { Err(n) } };
+  let (o1, o2) = (e(a), e(b));
+  Some(match c { 0 => chkv(EqualsChecker, &o1, &o2), 1 => chkv(OkEqualsChecker, &o1, &o2), 2 => chkv(ErrEqualsChecker, &o1, &o2),
+    3 => chkv(ResultChecker, &o1, &o2), 4 => chkv(AlwaysConsistent, &o1, &o2), _ => return None })
+}
+fn fam3(c: u32, a: i64, b: i64) -> Option<String> {
+  let e = |n: i64| -> Result<bool, ()> { if n >= 0 { Ok(n % 2 == 0) } else { Err(()) } };
+  let (o1, o2) = (e(a), e(b));
+  Some(match c { 0 => chkv(EqualsChecker, &o1, &o2), 1 => chkv(OkEqualsChecker, &o1, &o2), 2 => chkv(ErrEqualsChecker, &o1, &o2),
+    3 => chkv(ResultChecker, &o1, &o2), 4 => chkv(AlwaysConsistent, &o1, &o2), _ => return None })
+}
+fn fam4(c: u32, a: i64, b: i64) -> Option<String> {
+  let e = |n: i64| -> Result<String, ()> { if n >= 0 { Ok(format!("s{}", n)) } else { Err(()) } };
+  let (o1, o2) = (e(a), e(b));
+  Some(match c { 0 => chkv(EqualsChecker, &o1, &o2), 1 => chkv(OkEqualsChecker, &o1, &o2), 2 => chkv(ErrEqualsChecker, &o1, &o2),
+    3 => chkv(ResultChecker, &o1, &o2), 4 => chkv(AlwaysConsistent, &o1, &o2), _ => return None })
+}
+
 pub fn run_lib12(lines: &[String]) -> Vec<String> {
   let mut out = Vec::new();
   for l in lines {
     let t: Vec<&str> = l.split(' ').collect();
     let r: Option<String> = (|| {
+      if t.len() == 4 && (t[0] == "chk2" || t[0] == "chk3" || t[0] == "chk4") {
+        let (c, a, b): (u32, i64, i64) = (t[1].parse().ok()?, t[2].parse().ok()?, t[3].parse().ok()?);
+        return match t[0] { "chk2" => fam2(c, a, b), "chk3" => fam3(c, a, b), _ => fam4(c, a, b) };
+      }
       if t.len() != 4 || t[0] != "chk" { return None; }
       let c: u32 = t[1].parse().ok()?;
       let (o1, o2) = (enc(t[2].parse().ok()?), enc(t[3].parse().ok()?));
